@@ -563,6 +563,16 @@ func TestWholeFramesHuge(t *testing.T) {
 // they put on the wire (and read back from it) must be the reference encoding
 // of the frame they document.
 func TestFrameConstructorsAndAccessors(t *testing.T) {
+	// the exported size constants are the RFC's: 2 bytes minimum, 2+8+4 maximum, 125 for control payloads
+	if ws.MinHeaderSize != 2 || ws.MaxHeaderSize != 14 || ws.MaxControlFramePayloadSize != 125 {
+		t.Fatalf("ws.MinHeaderSize=%d ws.MaxHeaderSize=%d ws.MaxControlFramePayloadSize=%d; RFC 6455 section 5.2/5.5: 2, 14, 125", ws.MinHeaderSize, ws.MaxHeaderSize, ws.MaxControlFramePayloadSize)
+	}
+	if n := ws.HeaderSize(ws.Header{Masked: true, Length: 1 << 40}); n != ws.MaxHeaderSize {
+		t.Fatalf("the largest header has %d bytes, ws.MaxHeaderSize says %d", n, ws.MaxHeaderSize)
+	}
+	if n := ws.HeaderSize(ws.Header{}); n != ws.MinHeaderSize {
+		t.Fatalf("the smallest header has %d bytes, ws.MinHeaderSize says %d", n, ws.MinHeaderSize)
+	}
 	// reserved-bit helpers, exhaustively: Rsv/RsvBits/Header.RsvN agree with the wire bits 0x40 0x20 0x10
 	for v := 0; v < 8; v++ {
 		r1, r2, r3 := v&4 != 0, v&2 != 0, v&1 != 0
